@@ -36,7 +36,9 @@ MWSETS = ['none', 'cookie', 'custom']
 VIEWS = ['html', 'json']
 COOKIE_KEY = b'ZQCOOKIEKEY77abc'
 EXC_TYPES = ['ValueError', 'KeyError', 'RuntimeError', 'OSError', 'ZeroDivisionError', 'NotImplementedError', 'CustomError',
-             'AttributeError', 'TypeError']
+             'AttributeError', 'TypeError',
+             # raised without arguments (a bare `raise NotImplementedError`)
+             'NotImplementedError()', 'ValueError()', 'CustomError()', 'KeyError()']
 
 
 def deadline_passed():
@@ -66,7 +68,10 @@ class BadRepr(object):
 
     def __repr__(self):
         import builtins
-        T = CustomError if self.exc_name == 'CustomError' else getattr(builtins, self.exc_name)
+        name = self.exc_name.replace('()', '')
+        T = CustomError if name == 'CustomError' else getattr(builtins, name)
+        if self.exc_name.endswith('()'):
+            raise T()
         raise T('repr failed on purpose')
 
 
@@ -271,14 +276,16 @@ def run_faults(acc, tier, i, n):
     spec = [('secret_key', 'str'), ('token', 'str')]
     resources = dict((name, make_value(name, kind)) for name, kind in spec)
     nper = len(M.DEFAULT_PERIPHERALS)
-    for exc_name in EXC_TYPES:
+    for exc_full in EXC_TYPES:
+        exc_name = exc_full.replace('()', '')
+        noargs = exc_full.endswith('()')
         T = CustomError if exc_name == 'CustomError' else getattr(builtins, exc_name)
         # (a) a resource whose repr raises
         for mount in MOUNTS:
             k += 1
             if k % n != i:
                 continue
-            res2 = dict(resources, broken=BadRepr(exc_name))
+            res2 = dict(resources, broken=BadRepr(exc_full))
             app, base = build_host(res2, 'cookie', mount)
             for view in VIEWS:
                 res = fetch(app, base, view)
@@ -286,7 +293,7 @@ def run_faults(acc, tier, i, n):
                 acc.transitions += 1
                 acc.validated += 1
                 acc.add('nontrivial')
-                case = {'layer': 'faults', 'fault': 'resource-repr', 'exc': exc_name, 'mount': mount, 'view': view}
+                case = {'layer': 'faults', 'fault': 'resource-repr', 'exc': exc_full, 'mount': mount, 'view': view}
                 ok = check_page(acc, res, spec, view, case, 'resource-repr-raises', expect_failure=exc_name if exc_name != 'CustomError' else 'CustomError')
                 acc.outcome('fault|resource-repr|%s|%s' % (view, 'ok' if ok else 'bad'))
         # (b) each peripheral's get_context / render raising
@@ -302,6 +309,8 @@ def run_faults(acc, tier, i, n):
                     pass
 
                 def boom(*a, **kw):
+                    if noargs:
+                        raise T()
                     raise T('section failed on purpose')
                 failing = Failing.__new__(Failing)
                 failing.__dict__.update(getattr(orig, '__dict__', {}))
@@ -317,7 +326,7 @@ def run_faults(acc, tier, i, n):
                     acc.transitions += 1
                     acc.validated += 1
                     acc.add('nontrivial')
-                    case = {'layer': 'faults', 'fault': phase, 'peripheral': type(orig).__name__, 'exc': exc_name, 'view': view}
+                    case = {'layer': 'faults', 'fault': phase, 'peripheral': type(orig).__name__, 'exc': exc_full, 'view': view}
                     # the resources section itself may be the failing one: then nothing about resources is required
                     exp = exc_name
                     sp = [] if type(orig).__name__ == 'ResourcePeripheral' else spec
